@@ -14,6 +14,28 @@ CLAIMS = {
              "total_status of the new crate is private: it is observed through bl_boot_status / fallback_firmware / "
              "try_recover remediation on crafted flash.",
         design_ref="DESIGN.md section 6 (C11)"),
+    "C15": dict(
+        text="Proved in Lean for every (size, count) in u32 x u32 and every slot size: the geometry check accepts iff "
+             "1<=size<=256, 1<=count<=16384, size*count <= slot-0x4400 (accept_iff); a rejected start returns the error "
+             "with the device untouched (start_rejects_untouched); the binary search returns the largest l<2048 that "
+             "fits (capacity_spec), which is at least the README bound (capacity_ge_readme); all blocks and rows lie "
+             "inside the slot and do not overlap (capacity_fits). The model's start_update is compared with the real "
+             "one on boundary classes and near-fit geometries and on whole sessions at L and L+1 losses; the oracle "
+             "checks accept-iff-legal, no flash access before an error, no panic on the implementation.",
+        note="Trusted: Lean kernel, harness/NOR simulator, correspondence. The behavioural part 'tolerates any L losses, "
+             "completes at full rank' rests on C03's theorems plus the session correspondence (D5), not on a separate "
+             "theorem here. Defect fixed in /repo: size 0 / count 0 / count > 16384 were accepted.",
+        design_ref="DESIGN.md section 6 (C15)"),
+    "C18": dict(
+        text="Proved in Lean on the reconstructor model with a fault oracle: fault_retry / fault_retry_any_oracle (a "
+             "failed storage call that leaves the session incomplete, followed by redelivery, yields the same result "
+             "and an equivalent state as the fault-free delivery), fault_retry_seq (any finite sequence of such "
+             "episodes), handleBlock_congr; plus decide-witnesses for the two ways it fails: the pinned store order "
+             "(repaired in /repo) and a fault inside finish (known finding). Checked against the implementation by "
+             "injecting one fault at each storage-call index of random sessions and redelivering.",
+        note="Known finding fault-site=finish (no small safe repair). The flash-level part (SpiFlash faults through "
+             "the updater) is exercised by the D5 fault suite when built; the theorem is at the storage-trait level.",
+        design_ref="DESIGN.md section 6 (C18)"),
 }
 
 _TODO = "check not built yet in this session (planned in DESIGN.md section 6); not believed to be outside the technique"
